@@ -4,7 +4,7 @@
 From Coq Require Import List Bool Arith ZArith Lia.
 From Coq.Strings Require Import Byte.
 From GI Require Import Lib.Bytes Gen.DiffConsts Diff.Diff Diff.DiffSpec Diff.DiffBase Diff.DiffProofs
-  Diff.TgsProofs.
+  Diff.TgsProofs Diff.DiffParse Diff.ParseProofs Diff.CtxFacts Diff.BytesFacts.
 Import ListNotations.
 
 (* ---------------------------------------------------------------- statements *)
@@ -98,13 +98,6 @@ Proof.
   inversion H. apply lines_inj. assumption.
 Qed.
 
-(* ---------------------------------------------------------------- the context constant *)
-
-(* a range of zero lines can only sit at the start of a file: with at least one context line
-   every hunk that is not at position 0 carries lines of both sides.  (Go prints "-0,0".) *)
-Lemma ctxC_pos : 0 < ctxC.
-Proof. unfold ctxC. lia. Qed.
-
 (* ---------------------------------------------------------------- Examples *)
 
 (* "a\nb\nb\nc\nd\ne\nf\ng\nh" (duplicate lines, no final newline) vs "a\nb\nc\nx\ne\nf\ng\nh\nb\n" *)
@@ -175,4 +168,44 @@ Proof. vm_compute. discriminate. Qed.
 
 (* the executable form of the property on the example *)
 Example ex_holds : C08_holds_on ex_old ex_new = true.
+Proof. vm_compute. reflexivity. Qed.
+
+(* the statement-level lines on a text without final newline *)
+Example ex_lines_go : lines_go [x61; x0a; x62] = Ok [[x61; x0a]; x62 :: no_newline_msg].
+Proof. reflexivity. Qed.
+
+(* the runs of context lines of the two hunks of [ex_two_hunks]: 0 leading (top of file) and
+   ctxC trailing; ctxC leading and 0 trailing (end of file) *)
+Example ex_runs :
+  match diff_hunks (lines (ex_long x61 x62)) (lines (ex_long x78 x79)) with
+  | Ok hs => map (fun h => runs (body h)) hs = [[0; 0; 3]; [3; 0; 0]]
+  | _ => False
+  end.
+Proof. vm_compute. reflexivity. Qed.
+
+(* the bytes print and parse back; applying them gives the new lines *)
+Example ex_parse_back :
+  match diff [x6f] ex_old [x6e] ex_new with
+  | Ok out => match parse_render [x6f] [x6e] out, diff_hunks (lines ex_old) (lines ex_new) with
+              | Some hs, Ok hs' => hs = hs'
+              | _, _ => False
+              end /\ patch_bytes [x6f] [x6e] out (lines ex_old) = Some (lines ex_new)
+  | _ => False
+  end.
+Proof. vm_compute. split; reflexivity. Qed.
+
+(* the reader rejects bytes that are not a rendering: a count that does not match the body *)
+Example ex_parse_rejects :
+  parse_render [x6f] [x6e]
+    (render_header [x6f] [x6e] ++ [x40;x40;x20;x2d;x31;x2c;x32;x20;x2b;x31;x2c;x31;x20;x40;x40;x0a; x2d;x61;x0a; x2b;x62;x0a])
+  = None.
+Proof. vm_compute. reflexivity. Qed.
+
+(* a cmpenv whose second file holds a reference: the logged diff is against the expanded text *)
+Example ex_cmpenv :
+  let expand := fun d : bytes => if bytes_eqb d [x24; x56; x0a] then [x78; x0a] else d in   (* "$V\n" -> "x\n" *)
+  match do_cmp expand false true [x61] [x62] [x79; x0a] [x24; x56; x0a] with
+  | CmpFail d => patch_bytes [x61] [x62] d (lines [x79; x0a]) = Some (lines [x78; x0a])
+  | _ => False
+  end.
 Proof. vm_compute. reflexivity. Qed.
